@@ -184,8 +184,9 @@ def run_history(case):
     from coba.safety import SafeEvaluator, SafeLearner
     from props.c06_learners import RecLearner
     L = case["learner"]
-    script = [dict(e, free=mk(e.get("free")), kw={k: mk(v) for k, v in e.get("kw", {}).items()}) for e in L["script"]]
-    lrn = RecLearner(script, L["fmt"], L["has_score"], L.get("batch_mode", "aware"), L.get("kw_keys", ()))
+    script = [dict(e, free=mk(e.get("free")), kw={k: mk(v) for k, v in e.get("kw", {}).items()},
+                   ip={k: mk(v) for k, v in e.get("ip", [])}, il={k: mk(v) for k, v in e.get("il", [])}) for e in L["script"]]
+    lrn = RecLearner(script, L["fmt"], L["has_score"], L.get("batch_mode", "aware"), L.get("kw_keys", ()), info=bool(L.get("info")))
     given = SafeLearner(lrn) if L.get("prewrap") else lrn
     outs = []
     old_logger = CobaContext.logger
@@ -196,7 +197,7 @@ def run_history(case):
             n0 = len(lrn.calls)
             out = {"exc": None, "rows": None, "s0": [lrn.n_pred, lrn.n_score]}
             try:
-                ev = SequentialCB(record=list(cfg["record"]), learn=cfg["learn"], eval=cfg["eval"])
+                ev = SequentialCB(record=list(cfg["record"]), learn=cfg["learn"], eval=cfg["eval"], seed=L.get("pmf_seed"))
                 env = CaseEnv(envd["inters"], envd.get("batch"), envd.get("gen", False))
                 rows = list(SafeEvaluator(ev).evaluate(env, given))
                 out["rows"] = [canon_row(r) for r in rows]
@@ -348,6 +349,8 @@ def monitor(case, impl):
     bs = env.get("batch") or 1
     pos = 0
     exp_rows = []
+    unknown_draw = False
+    infos_pred, infos_learn = {}, {}
 
     def bad(what, sig):
         fails.append(F("B", what, sig))
@@ -370,6 +373,7 @@ def monitor(case, impl):
                     bad("interaction %d: %s received context %s, the environment has %s" % (lo + r, want, c["ctx"], ctx), "trace:%s-context" % want)
                 if not ceq(c["acts"], acts):
                     bad("interaction %d: %s received actions %s, the environment has %s" % (lo + r, want, c["acts"], acts), "trace:%s-actions" % want)
+                infos_pred[lo + r] = c.get("info")
                 if sb:
                     if not ceq(c["a"], cn(mk(d["action"]))):
                         bad("interaction %d: score received action %s, logged action is %s" % (lo + r, c["a"], cn(mk(d["action"]))), "trace:score-action")
@@ -390,9 +394,24 @@ def monitor(case, impl):
             d = idict(pairs)
             ctx = cn(mk(d.get("context")))
             ret = rets[r]
+            if ret is not None and ret.get("pmf") is not None:
+                # PMF answer: SafeLearner drew the action.  With on-policy learning the learn call shows which; it must be an
+                # action of this interaction with positive mass and the probability handed on must be that mass.
+                c = calls[pos] if (learn in ("on", "ips") and pos < len(calls) and calls[pos]["m"] == "learn") else None
+                if c is None:
+                    ret = None
+                    unknown_draw = True
+                else:
+                    acts_c = cn(mk(d["actions"]))[1] if "actions" in d else []
+                    ws = ret["pmf"][1]
+                    idx = [q for q, x in enumerate(acts_c) if ceq(x, c["a"])]
+                    if not idx or not any(ws[q] != ["q", 0, 1] and ceq(ws[q], c["p"]) for q in idx):
+                        bad("interaction %d: PMF %s over actions %s, but learn received action=%s probability=%s"
+                            % (lo + r, ws, acts_c, c["a"], c["p"]), "trace:pmf-draw")
+                    ret = dict(ret, a=c["a"], p=c["p"])
             a_py = uncanon(ret["a"]) if ret else None
             er = None
-            if ev:
+            if ev and not (np_ and ret is None):
                 if ev == "on":
                     er = cn(env_reward(inters[0], pairs, a_py))
                 elif np_:
@@ -400,15 +419,22 @@ def monitor(case, impl):
                 else:
                     er = cn(float(Fraction(scs[r][1], scs[r][2])) * ips_reward(d, mk(d["action"])))
             row = {}
-            if ev and "reward" in rec:
+            pmf_blind = np_ and ret is None        # a PMF draw the monitor cannot see (no learn call): values left to (A)
+            if ev and "reward" in rec and not (pmf_blind and not sb):
                 row["reward"] = er
-            if ev and "action" in rec:
+            if ev and "action" in rec and not pmf_blind:
                 row["action"] = ret["a"]
-            if ev and "probability" in rec:
+            if ev and "probability" in rec and not pmf_blind:
                 row["probability"] = ret["p"]
+            if pmf_blind:
+                row["__blind__"] = True
             if learn:
                 if learn == "off":
                     want = {"ctx": ctx, "a": cn(mk(d["action"])), "r": cn(mk(d["reward"])), "p": cn(mk(d.get("probability"))), "kw": cn({})}
+                elif ret is None:
+                    bad("interaction %d: expected a learn call after the PMF answer, the learner saw %s (%s)"
+                        % (lo + r, calls[pos]["m"] if pos < len(calls) else None, mode), "trace:missing-learn:%s" % mode)
+                    return fails, tags
                 else:
                     lr = env_reward(inters[0], pairs, a_py) if learn == "on" else ips_reward(d, a_py)
                     want = {"ctx": ctx, "a": ret["a"], "r": cn(lr), "p": ret["p"], "kw": ret["kw"]}
@@ -416,6 +442,7 @@ def monitor(case, impl):
                 if c is None or c["m"] != "learn":
                     bad("interaction %d: expected a learn call, the learner saw %s (%s)" % (lo + r, c and c["m"], mode), "trace:missing-learn:%s" % mode)
                     return fails, tags
+                infos_learn[lo + r] = c.get("info")
                 names = {"ctx": "context", "a": "action", "r": "reward", "p": "probability", "kw": "kwargs"}
                 for k in ("ctx", "a", "r", "p", "kw"):
                     if not ceq(c[k], want[k], tol=(k == "r")):
@@ -438,6 +465,7 @@ def monitor(case, impl):
 
     # rows
     rows = impl["rows"]
+    blind = [bool(r.pop("__blind__", False)) for r in exp_rows]
     demanded = [{k: v for k, v in r.items() if not (k == "probability" and v is None)} for r in exp_rows]
     # a batch row is only un-batched when one of its cells is a Batch.List: the recorded reward, a context/actions
     # cell the environment really has, a reward object, or an extra field.  Otherwise (finding C06-F7) it is not.
@@ -462,8 +490,23 @@ def monitor(case, impl):
                 elif not ceq(rd[k], v, tol=k in ("reward", "rewards")):
                     kind = k if k in RESERVED else "extra-field"
                     rbad("row %d: %r is %s, the property demands %s (%s)" % (i, k, rd[k], v, mode), "rows:value:%s%s%s" % (kind, (":eval=%s" % ev) if k == "reward" else "", rsig))
-            if ev and "probability" in rec and exp_rows[i].get("probability") is None and rd.get("probability") is not None:
+            if ev and "probability" in rec and not blind[i] and exp_rows[i].get("probability") is None and rd.get("probability") is not None:
                 rbad("row %d records probability %s although the learner returned none" % (i, rd.get("probability")), "rows:value:probability-invented" + rsig)
+    if L.get("info") and not batched and len(rows) == len(demanded) and (any(demanded) or rows):
+        # learning_info is local to its interaction: row i holds what predict wrote during pass i update()d by what learn wrote
+        # during pass i, and no info key written during another pass
+        for i, row in enumerate(rows):
+            rd = dict(row)
+            want = {}
+            for src in (infos_pred.get(i), infos_learn.get(i)):
+                if src:
+                    want.update({k: v for k, v in src[1]})
+            for k, v in want.items():
+                if k not in rd or not ceq(rd[k], v):
+                    rbad("row %d: learning_info %r written during this interaction is %s in the row, expected %s" % (i, k, rd.get(k), v), "rows:info-missing")
+            for k in rd:
+                if k.startswith("info_") and k not in want:
+                    rbad("row %d holds learning_info %r=%s which the learner did not write during this interaction" % (i, k, rd[k]), "rows:info-leaked")
     if plain and row_fails:
         # one class: a batch row none of whose cells is a Batch.List is never un-batched
         row_fails = [F("B", "batched evaluation, record=%r: rows are not one per interaction with that interaction's values (%s) -- e.g. %s"
@@ -515,9 +558,13 @@ def model_request(case, s0=(0, 0)):
     has_p = L["fmt"] in ("AP", "APK", "dAP", "dAPK")
     has_k = L["fmt"].endswith("K")
     script = [{"idx": e["idx"], "free": vstr(mk(e.get("free"))), "p": e.get("p") if has_p else None,
-               "kw": [[k, vstr(mk(e["kw"][k]))] for k in L.get("kw_keys", ())] if has_k else [], "s": e.get("s", [1, 2])} for e in L["script"]]
+               "kw": [[k, vstr(mk(e["kw"][k]))] for k in L.get("kw_keys", ())] if has_k else [], "s": e.get("s", [1, 2]),
+               "pm": e.get("pm", []),
+               "ip": [[k, vstr(mk(v))] for k, v in e.get("ip", [])] if L.get("info") else [],
+               "il": [[k, vstr(mk(v))] for k, v in e.get("il", [])] if L.get("info") else []} for e in L["script"]]
     return {"cfg": {"learn": cfg["learn"], "eval": cfg["eval"], "record": cfg["record"]}, "batch": env.get("batch"),
-            "env": menv, "learner": {"has_score": L["has_score"], "script": script}, "s0": list(s0)}
+            "env": menv, "learner": dict({"has_score": L["has_score"], "script": script},
+                                         **({"pmf_seed": L["pmf_seed"]} if L["fmt"] in ("pmf", "pmfK") else {})), "s0": list(s0)}
 
 
 def mval(sv):
@@ -578,7 +625,9 @@ def compare_A(case, impl, ans):
     """implementation vs model on the observable (exception class, call trace, rows without timing)"""
     import re
     fails = []
-    m = ans["model"]
+    m = ans["modelI"] if (case["learner"].get("info") and not case["env"].get("batch")) else ans["model"]
+    if case["learner"]["fmt"] in ("pmf", "pmfK"):
+        m = ans["modelP"]
     mode = "learn=%s,eval=%s" % (case["cfg"]["learn"], case["cfg"]["eval"])
     if m["kind"] == "error":
         if m["err"] == "missing":
@@ -615,14 +664,21 @@ def compare_A(case, impl, ans):
     return fails
 
 
-def compare_C(ans):
-    """model |= spec whenever the refinement theorem's hypotheses hold (plumbing guard)"""
+def compare_C(ans, batched=False):
+    """model |= spec whenever the refinement theorems' hypotheses hold (plumbing guard): un-batched model = specRun,
+    and for a batched case also batched model = specRunB"""
     if not ans.get("hyp"):
         return []
+    out = []
     u, sp = ans["unbatched"], ans["spec"]
     if sp is None or u != sp:
-        return [F("C", "hypotheses of trace_eq_spec/rows_eq_spec hold but model %s != spec %s" % (json.dumps(u)[:200], json.dumps(sp)[:200]), "C:refinement")]
-    return []
+        out.append(F("C", "hypotheses of trace_eq_spec/rows_eq_spec hold but model %s != spec %s" % (json.dumps(u)[:200], json.dumps(sp)[:200]), "C:refinement"))
+    if batched:
+        m, sb = ans["model"], ans.get("specB")
+        if sb is None or m != sb:
+            out.append(F("C", "hypotheses of trace_eq_spec_batched/rows_eq_spec_batched hold but model %s != specRunB %s"
+                         % (json.dumps(m)[:200], json.dumps(sb)[:200]), "C:refinement-batched"))
+    return out
 
 
 # ------------------------------------------------------------------ generators
@@ -773,6 +829,14 @@ PROBS = [[1, 1], [1, 2], [1, 4], [1, 8], [1, 2], [1, 4], [3, 4], [3, 10], [1, 10
 LOGGED_PROBS = PROBS + [[1, 1], [1, 1000], [1, 10000], [1, 10 ** 9], [1, 4096], [1, 2 ** 20], [1, 2 ** 30], [1, 4096]]
 
 
+# PMFs (dyadic, summing to 1) a learner may answer with, by number of actions
+PMFS = {1: [[(1, 1)]],
+        2: [[(1, 2), (1, 2)], [(1, 4), (3, 4)], [(0, 1), (1, 1)], [(1, 1), (0, 1)]],
+        3: [[(1, 2), (1, 4), (1, 4)], [(0, 1), (1, 2), (1, 2)], [(1, 4), (1, 2), (1, 4)], [(1, 1), (0, 1), (0, 1)]],
+        4: [[(1, 4)] * 4, [(1, 2), (0, 1), (1, 4), (1, 4)], [(1, 8), (1, 8), (1, 4), (1, 2)]],
+        5: [[(1, 2), (1, 8), (1, 8), (1, 8), (1, 8)], [(0, 1), (0, 1), (1, 1), (0, 1), (0, 1)], [(1, 4), (1, 4), (1, 4), (1, 8), (1, 8)]]}
+
+
 def gen_episode(rng, boundary=False):
     """one (cfg, env) pair + the action style that restricts the learner's prediction format"""
     learn = rng.choice(["on", "on", "off", "ips", None])
@@ -880,6 +944,10 @@ def gen_case(rng, tier="quick", boundary=False):
     has_score = rng.chance(0.6 if "ips" in evs else 0.2)
     fmts = [f for f in FMTS_ALL if all(f in fmts_for(st) for st in styles)]
     fmt = rng.choice(fmts)
+    envs = [env] + [t["env"] for t in then]
+    pmf_ok = all(all("actions" in idict(p_) and idict(p_)["actions"]["l"] for p_ in e_["inters"]) for e_ in envs)
+    if pmf_ok and rng.chance(0.12):
+        fmt = rng.choice(["pmf", "pmfK"])      # the learner answers with {'pmf': [...]}: SafeLearner draws the action with CobaRandom(seed)
     kw_keys = rng.sample(["i", "tag", "z"], rng.choice([0, 1, 1, 2, 2])) if fmt.endswith("K") else []   # (a, {}) is legal
     script = []
     noprob = rng.chance(0.08)      # a learner either always or never reports a probability (consistent format)
@@ -888,6 +956,16 @@ def gen_case(rng, tier="quick", boundary=False):
                        "pint": rng.chance(0.5),
                        "kw": {k: gen_any(rng, 1) for k in kw_keys}, "s": rng.choice([[1, 2], [1, 4], [1, 1], [0, 1], [3, 4]])})
     L = {"fmt": fmt, "has_score": has_score, "batch_mode": rng.choice(["aware", "unaware"]), "kw_keys": kw_keys, "script": script}
+    if fmt in ("pmf", "pmfK"):
+        L["pmf_seed"] = rng.choice([1, 2, 7, 42, 1000003])
+        for e in script:
+            e["pm"] = [[n_, [list(w) for w in rng.choice(PMFS[n_])]] for n_ in range(1, 6)]
+    if fmt not in ("pmf", "pmfK") and rng.chance(0.15) and not env.get("batch") and not any(t["env"].get("batch") for t in then):
+        # the learner also writes CobaContext.learning_info: predict writes `ip`, learn then update()s with `il` (modelled un-batched)
+        L["info"] = True
+        for e in script:
+            e["ip"] = [[k, gen_any(rng, 1)] for k in rng.sample(["info_p", "info_x", "info_n"], rng.randint(0, 2))]
+            e["il"] = [[k, gen_any(rng, 1)] for k in rng.sample(["info_l", "info_x"], rng.randint(0, 2))]
     case = {"cfg": cfg, "env": env, "learner": L}
     if then:
         case["then"] = then
@@ -998,28 +1076,38 @@ class C06(Property):
     search_n = 4000
     case_timeout = 60
     workers = 8
-    rule = ("random finite environments (0-7 interactions; context none/scalar/str/dense/sparse or key absent; action sets of ints incl. 0/1, "
-            "floats, strings, dense tuples/lists, sparse dicts, or [] for continuous; sequence or functional rewards (L1, Binary, Discrete x2, "
-            "Hamming, plain callable); logged action/reward/probability present or absent; 0-3 extra fields of arbitrary JSON-like values; "
-            "unbatched or Batch(1..4); list or generator read()) x learn in {on,off,ips,None} x eval in {on,ips,None} x record subsets x a scripted "
-            "recording learner (8 prediction formats, with/without score, batch-aware or not). non-trivial = at least 2 interactions and the "
-            "environment passes validation; distinct by canonical JSON of the case")
+    rule = ("random finite environments (0-7 interactions; context none/scalar/str/dense/sparse or key absent, falsy values 0/''/[]/{} included; "
+            "action sets of ints incl. 0/1/bools, ids above 2^53, floats, strings incl. '', dense tuples/lists, sparse dicts, or [] for continuous; "
+            "sequence or functional rewards (L1, Binary, Discrete x2, Hamming, plain callable), zeros frequent; logged action/reward/probability "
+            "present or absent, propensities from 1.0 down to 2^-30 and 1e-9; 0-3 extra fields of arbitrary JSON-like values; un-batched or "
+            "Batch(1..4); list or generator read()) x learn in {on,off,ips,None} x eval in {on,ips,None} x record subsets x a scripted recording "
+            "learner (8 (action[,prob][,kwargs]) formats incl. probability 0 and empty kwargs, or PMF answers {'pmf':..} drawn by SafeLearner with "
+            "CobaRandom(seed); with/without score; batch-aware or not; 15% also write CobaContext.learning_info). 25% of the cases are histories of "
+            "2-3 evaluations with the same learner object (plain or pre-wrapped in SafeLearner) over environments differing in batching/shape; "
+            "every evaluation is judged on its own. non-trivial = at least 2 interactions and every environment passes validation; distinct by "
+            "canonical JSON of the case")
     trusted_base = [
-        "SafeLearner's prediction-format parsing is the identity on (action, probability, kwargs) for the formats generated (C15's subject); "
+        "SafeLearner's prediction-format parsing is the identity on (action, probability, kwargs) for the 8 hinted/unambiguous formats generated "
+        "(C15's subject); for {'pmf': ..} answers it is modelled (wrapPmf) as one CobaRandom(seed).choicew draw per row with the finished C05 model; "
         "its 0/1 -> 0.0/1.0 action rewrite is invisible under Python ==, which is the equality used by the canonical forms",
         "reward objects (L1/Binary/Discrete/Hamming) are tabulated by the harness's own formulas on the actions that can occur and handed to the "
         "model as finite tables; Harden/Repr inside Finalize are identities on the generated (materialised, non-categorical) values",
-        "numbers are exact rationals of the doubles; values are dyadic so every float operation on the evaluated paths is exact, except r/p for "
-        "p in {3/4, 3/10, 1/10, 1/3} and score*r/p, compared with relative tolerance 1e-12",
+        "numbers are exact rationals of the doubles; contexts, actions, probabilities, kwargs, extras are compared exactly; only computed rewards "
+        "(r/p, score*r/p) are compared with relative tolerance 1e-12 against the model's exact rationals",
         "a batch-level learner call is read as its rows in order (batch-aware recorder) or is replaced by per-row calls by SafeLearner (batch-unaware recorder)",
+        "learning_info is modelled for un-batched evaluation only (in a batched pass Unbatch indexes subscriptable info values; not modelled, not generated)",
     ]
     assumptions = ["modes dr/dm and record 'ope_loss' need vowpalwabbit (excluded by the property)",
-                   "environments are homogeneous (every interaction has the keys of the first) and action sets have no duplicates under ==",
-                   "extra field names are disjoint from coba's reserved names (context, actions, rewards, action, reward, probability, feedbacks, "
-                   "learn_rewards, eval_rewards, predict_time, learn_time)",
-                   "CobaContext.learning_info is left empty by the recording learner"]
+                   "environments are homogeneous (every interaction has the keys of the first), every interaction has at least one of "
+                   "context/actions/action, and action sets have no duplicates under ==",
+                   "extra field names and learning_info keys are disjoint from coba's reserved names (context, actions, rewards, action, reward, "
+                   "probability, feedbacks, learn_rewards, eval_rewards, predict_time, learn_time) and from each other",
+                   "a learner reports a probability either always or never; PMF answers are valid PMFs of the right length"]
     partial_theorems = {"validate_iff_missing_partial": "the code does not require 'probability' in the ips modes although the docstring does (finding C06-F1, "
-                        "pinned by test_off_ips_actions_no_prob); witness validate_counterexample"}
+                        "pinned by test_off_ips_actions_no_prob); witness validate_counterexample",
+                        "batched_eq_unbatched / batched_trace_eq_unbatched": "hold for history-independent learners only -- for stateful learners the runs "
+                        "legitimately differ; the exact difference is batched_calls_shape + batched_row_predicted_before_learning",
+                        "info_row_local": "learning_info is modelled for un-batched evaluation only"}
 
     def corpus(self):
         return corpus_cases()
@@ -1067,9 +1155,11 @@ class C06(Property):
                     etags.append("A-skipped:documented-but-unenforced-requirement")
                 elif not any(f["kind"] == "B" for f in efails):
                     efails += compare_A(ecase, impl, ans)
-                efails += compare_C(ans)
+                efails += compare_C(ans, bool(env.get("batch")) and bool(env["inters"]))
                 if ans.get("hyp"):
                     etags.append("hyp")
+            if L.get("info"):
+                etags.append("learning_info")
             if k > 0:
                 for f in efails:
                     f["what"] = "evaluation #%d with the same learner object (%s), after %s: %s" % (
@@ -1082,6 +1172,24 @@ class C06(Property):
             smalls.append({"exc": impl["exc"], "msg": impl.get("msg"), "rows": impl["rows"], "calls": [strip_call(c) for c in impl["calls"]]})
             valid_all = valid_all and bool(env["inters"]) and not any(t.startswith("reject:") for t in etags)
             n_inters += len(env["inters"])
+        if driver is not None and n_eps > 1 and all(m is not None for m in models) and L["fmt"] not in ("pmf", "pmfK"):
+            # `runHistory` (theorem evaluations_independent): the k-th outcome of the whole history, evaluated by the model from the
+            # initial learner state, must be the outcome replayed from the real learner's script position at the start of evaluation k
+            # -- as long as the model's learner state after every earlier evaluation is the real one
+            req = model_request(episode_case(case, 0), obs[0]["s0"])
+            req["history"] = [{"cfg": model_request(episode_case(case, k))["cfg"], "batch": episodes(case)[k][1].get("batch"),
+                               "env": model_request(episode_case(case, k))["env"]} for k in range(n_eps)]
+            hist = driver.ask(req)["history"]
+            for k in range(n_eps):
+                if hist[k] != models[k]:
+                    fails.append(F("C", "runHistory: outcome #%d %s differs from the evaluation replayed from its start state %s"
+                                   % (k + 1, json.dumps(hist[k])[:200], json.dumps(models[k])[:200]), "C:history"))
+                    break
+                if k + 1 < n_eps and (models[k].get("kind") == "error" and models[k].get("err") != "missing"
+                                      or (models[k].get("kind") == "ok" and models[k].get("state") != obs[k + 1]["s0"])
+                                      or (models[k].get("kind") == "error" and obs[k + 1]["s0"] != obs[k]["s0"])):
+                    break          # the real learner went on from a state the model does not reproduce (crash, probe, finding)
+            tags.append("history-checked")
         return {"fails": fails, "nontrivial": valid_all and n_inters >= 2, "tags": tags,
                 "impl": smalls[0] if n_eps == 1 else smalls, "model": models[0] if n_eps == 1 else models}
 
